@@ -382,6 +382,7 @@ func yamlTags(p *Prog, pkg, name string) map[string]bool {
 }
 
 func runC01(c *Ctx) {
+	defer checkParamsUsed(c, "C01-R1", "internal/parser.NewParser")
 	p := c.P
 	c.Rule("C01-R1", "strict key tables are subsets of the vendored rulefmt yaml tags; defaults reject", 17)
 	c.Rule("C01-R2", "every Prometheus rejection reason has a guarded error exit or a Bug/Fatal check on the pint side", 38)
